@@ -904,7 +904,7 @@ class Judge:
                            at=list(path), expected=sorted(exp), observed=sorted(obs))
                 if extra:
                     self.v(f'{level}-{kn}-{side}-spurious',
-                           f'{side}.{b} of the {level} diff lists an element the script did not {side[:-1]}',
+                           f'{side}.{b} of the {level} diff lists an element the script did not {side[:-2] if side == "added" else side[:-1]}',
                            at=list(path), expected=sorted(exp), observed=sorted(obs))
                 if obs - exp and not extra:
                     self.ctx.count(f'unspecified:{level}:{b}:{side}:deeper-element-listed')
